@@ -1,4 +1,610 @@
-import EmsModel.Core.Mask
-import EmsModel.Core.MeshMask
+import EmsModel.Lemmas.Mask
+import EmsModel.Lemmas.MeshMask
+/-!
+# C07 — clip masks select exactly the intersecting cells plus the requested buffer
+
+Property theorems only.  Unbounded in array shape, ring count, mesh size and hit order.
+GEOS enters as a parameter `intersects : Poly → Geom → Bool` (any function); the hit list is
+any list whose *members* are the cells with a polygon that intersects — order and repeats free.
+-/
 namespace Ems.C07
+
+open Ems.Clip Ems.Clip.Mask Ems.Clip.FaceMesh
+
+/-! ## Rings on grids: `blur_mask` -/
+
+/-- `blur_mask` keeps the shape. -/
+theorem blur_shape (m : Mask) (s : Nat) : (m.blur s).ny = m.ny ∧ (m.blur s).nx = m.nx :=
+  ⟨rfl, rfl⟩
+
+/-- A cell is marked after `blur_mask(·, s)` iff it lies inside the array and some marked cell
+*inside the array* is at most `s` steps away in each axis (eight-direction rings; border cells
+see only in-array neighbours, nothing wraps). Every shape, every size. -/
+theorem blur_spec (m : Mask) (s j i : Nat) :
+    (m.blur s).get j i = true ↔
+      j < m.ny ∧ i < m.nx ∧ ∃ j' i', j' < m.ny ∧ i' < m.nx ∧
+        j' ≤ j + s ∧ j ≤ j' + s ∧ i' ≤ i + s ∧ i ≤ i' + s ∧ m.get j' i' = true := by
+  rw [get_blur]
+  constructor
+  · rintro ⟨hj, hi, j', i', h1, h2, h3, h4, hg⟩
+    exact ⟨hj, hi, j', i', get_lt_ny hg, get_lt_nx hg, h1, h2, h3, h4, hg⟩
+  · rintro ⟨hj, hi, j', i', _, _, h1, h2, h3, h4, hg⟩
+    exact ⟨hj, hi, j', i', h1, h2, h3, h4, hg⟩
+
+/-- size 0 changes nothing -/
+theorem blur_zero (m : Mask) (j i : Nat) : (m.blur 0).get j i = m.get j i := by
+  rw [Bool.eq_iff_iff, get_blur]
+  constructor
+  · rintro ⟨_, _, j', i', h1, h2, h3, h4, hg⟩
+    have : j' = j := by omega
+    have : i' = i := by omega
+    subst_vars; exact hg
+  · intro hg
+    exact ⟨get_lt_ny hg, get_lt_nx hg, j, i, by omega, by omega, by omega, by omega, hg⟩
+
+/-- blurring never unmarks a cell -/
+theorem blur_extensive (m : Mask) (s j i : Nat) (h : m.get j i = true) :
+    (m.blur s).get j i = true :=
+  (get_blur m s j i).mpr ⟨get_lt_ny h, get_lt_nx h, j, i, by omega, by omega, by omega, by omega, h⟩
+
+/-- a larger size never unmarks a cell -/
+theorem blur_mono_size (m : Mask) (s t : Nat) (hst : s ≤ t) (j i : Nat)
+    (h : (m.blur s).get j i = true) : (m.blur t).get j i = true := by
+  rw [get_blur] at h ⊢
+  obtain ⟨hj, hi, j', i', h1, h2, h3, h4, hg⟩ := h
+  exact ⟨hj, hi, j', i', by omega, by omega, by omega, by omega, hg⟩
+
+/-- a larger input (same shape) never unmarks a cell -/
+theorem blur_mono_input (m m' : Mask) (hny : m.ny = m'.ny) (hnx : m.nx = m'.nx)
+    (hsub : ∀ j i, m.get j i = true → m'.get j i = true) (s j i : Nat)
+    (h : (m.blur s).get j i = true) : (m'.blur s).get j i = true := by
+  rw [get_blur] at h ⊢
+  obtain ⟨hj, hi, j', i', h1, h2, h3, h4, hg⟩ := h
+  exact ⟨hny ▸ hj, hnx ▸ hi, j', i', h1, h2, h3, h4, hsub _ _ hg⟩
+
+/-- between two in-range positions at most `s + t` apart lies an in-range one within `t` of the
+first and `s` of the second -/
+theorem mid_exists (j j' s t ny : Nat) (h1 : j' ≤ j + (s + t)) (h2 : j ≤ j' + (s + t))
+    (hj : j < ny) (hj' : j' < ny) :
+    ∃ jm, jm ≤ j + t ∧ j ≤ jm + t ∧ j' ≤ jm + s ∧ jm ≤ j' + s ∧ jm < ny := by
+  by_cases a : j' + t ≤ j
+  · exact ⟨j - t, by omega, by omega, by omega, by omega, by omega⟩
+  · by_cases b : j + t ≤ j'
+    · exact ⟨j + t, by omega, by omega, by omega, by omega, by omega⟩
+    · exact ⟨j', by omega, by omega, by omega, by omega, by omega⟩
+
+/-- `t` rings around `s` rings are `s + t` rings: a buffer of `b` is `b` times one ring,
+also at the array border. -/
+theorem blur_blur (m : Mask) (s t j i : Nat) :
+    ((m.blur s).blur t).get j i = (m.blur (s + t)).get j i := by
+  rw [Bool.eq_iff_iff, get_blur, get_blur]
+  constructor
+  · rintro ⟨hj, hi, j'', i'', h1, h2, h3, h4, hg⟩
+    rw [get_blur] at hg
+    obtain ⟨_, _, j', i', g1, g2, g3, g4, hg⟩ := hg
+    exact ⟨hj, hi, j', i', by omega, by omega, by omega, by omega, hg⟩
+  · rintro ⟨hj, hi, j', i', h1, h2, h3, h4, hg⟩
+    have hj : j < m.ny := hj
+    have hi : i < m.nx := hi
+    obtain ⟨jm, a1, a2, a3, a4, a5⟩ := mid_exists j j' s t m.ny h1 h2 hj (get_lt_ny hg)
+    obtain ⟨im, b1, b2, b3, b4, b5⟩ := mid_exists i i' s t m.nx h3 h4 hi (get_lt_nx hg)
+    refine ⟨hj, hi, jm, im, a1, a2, b1, b2, ?_⟩
+    rw [get_blur]
+    exact ⟨a5, b5, j', i', a3, a4, b3, b4, hg⟩
+
+/-- the callable `blur_mask` refuses exactly negative sizes and zero-sized arrays -/
+theorem blur_refusals (m : Mask) (s : Int) :
+    m.blur? s = (if s < 0 ∨ m.ny = 0 ∨ m.nx = 0 then none else some (m.blur s.toNat)) := by
+  unfold blur?
+  by_cases h1 : s < 0
+  · simp [h1]
+  · by_cases h2 : m.ny = 0 ∨ m.nx = 0
+    · simp [h1, h2]
+    · simp [h1, h2]
+
+/-! ## Edges and nodes of marked faces: `smear_mask`, `c_mask_from_centres` -/
+
+/-- each padded axis grows by exactly one -/
+theorem smear_shape (m : Mask) (py px : Bool) :
+    (m.smear py px).ny = m.ny + py.toNat ∧ (m.smear py px).nx = m.nx + px.toNat :=
+  ⟨smear_ny m py px, smear_nx m py px⟩
+
+/-- For each of the axis choices: position `(j, i)` of the smeared array is marked iff it is
+inside the enlarged shape and one of the faces `(j', i')` with `j ∈ {j', j' + py}`,
+`i ∈ {i', i' + px}` is marked. -/
+theorem smear_spec (m : Mask) (py px : Bool) (j i : Nat) :
+    (m.smear py px).get j i = true ↔
+      j < m.ny + py.toNat ∧ i < m.nx + px.toNat ∧
+      ∃ j' i', m.get j' i' = true ∧ j' ≤ j ∧ j ≤ j' + py.toNat ∧ i' ≤ i ∧ i ≤ i' + px.toNat := by
+  rw [get_smear]
+  constructor
+  · rintro ⟨dj, di, h1, h2, h3, h4, hg⟩
+    have := get_lt_ny hg
+    have := get_lt_nx hg
+    exact ⟨by omega, by omega, j - dj, i - di, hg, by omega, by omega, by omega, by omega⟩
+  · rintro ⟨_, _, j', i', hg, h1, h2, h3, h4⟩
+    refine ⟨j - j', i - i', by omega, by omega, by omega, by omega, ?_⟩
+    have e1 : j - (j - j') = j' := by omega
+    have e2 : i - (i - i') = i' := by omega
+    rw [e1, e2]; exact hg
+
+/-- the left edges `(j, i)`, `(j, i + 1)` of face `(j, i)` on the `(ny, nx + 1)` left grid -/
+def leftEdgesOf (j i : Nat) : List (Nat × Nat) := [(j, i), (j, i + 1)]
+/-- the back edges `(j, i)`, `(j + 1, i)` of face `(j, i)` on the `(ny + 1, nx)` back grid -/
+def backEdgesOf (j i : Nat) : List (Nat × Nat) := [(j, i), (j + 1, i)]
+/-- the four corner nodes of face `(j, i)` on the `(ny + 1, nx + 1)` node grid -/
+def nodesOf (j i : Nat) : List (Nat × Nat) := [(j, i), (j, i + 1), (j + 1, i), (j + 1, i + 1)]
+
+/-- exact shapes of the four masks -/
+theorem cmask_shapes (face : Mask) :
+    let c := cMaskFromCentres face
+    (c.face = face) ∧ (c.left.ny = face.ny ∧ c.left.nx = face.nx + 1) ∧
+    (c.back.ny = face.ny + 1 ∧ c.back.nx = face.nx) ∧
+    (c.node.ny = face.ny + 1 ∧ c.node.nx = face.nx + 1) := by
+  simp [cMaskFromCentres, smear_ny, smear_nx]
+
+/-- a left edge is marked iff it belongs to at least one marked face -/
+theorem cmask_left (face : Mask) (j i : Nat) :
+    (cMaskFromCentres face).left.get j i = true ↔
+      ∃ j' i', face.get j' i' = true ∧ (j, i) ∈ leftEdgesOf j' i' := by
+  show (face.smear false true).get j i = true ↔ _
+  rw [get_smear_ft]
+  simp only [leftEdgesOf, List.mem_cons, Prod.mk.injEq, List.mem_nil_iff, or_false]
+  constructor
+  · rintro (⟨h1, h⟩ | h)
+    · exact ⟨j, i - 1, h, Or.inr ⟨rfl, by omega⟩⟩
+    · exact ⟨j, i, h, Or.inl ⟨rfl, rfl⟩⟩
+  · rintro ⟨j', i', h, ⟨rfl, rfl⟩ | ⟨rfl, rfl⟩⟩
+    · exact Or.inr h
+    · exact Or.inl ⟨by omega, by simpa using h⟩
+
+/-- a back edge is marked iff it belongs to at least one marked face -/
+theorem cmask_back (face : Mask) (j i : Nat) :
+    (cMaskFromCentres face).back.get j i = true ↔
+      ∃ j' i', face.get j' i' = true ∧ (j, i) ∈ backEdgesOf j' i' := by
+  show (face.smear true false).get j i = true ↔ _
+  rw [get_smear_tf]
+  simp only [backEdgesOf, List.mem_cons, Prod.mk.injEq, List.mem_nil_iff, or_false]
+  constructor
+  · rintro (⟨h1, h⟩ | h)
+    · exact ⟨j - 1, i, h, Or.inr ⟨by omega, rfl⟩⟩
+    · exact ⟨j, i, h, Or.inl ⟨rfl, rfl⟩⟩
+  · rintro ⟨j', i', h, ⟨rfl, rfl⟩ | ⟨rfl, rfl⟩⟩
+    · exact Or.inr h
+    · exact Or.inl ⟨by omega, by simpa using h⟩
+
+/-- a node is marked iff it is a corner of at least one marked face -/
+theorem cmask_node (face : Mask) (j i : Nat) :
+    (cMaskFromCentres face).node.get j i = true ↔
+      ∃ j' i', face.get j' i' = true ∧ (j, i) ∈ nodesOf j' i' := by
+  show (face.smear true true).get j i = true ↔ _
+  rw [get_smear_tt]
+  simp only [nodesOf, List.mem_cons, Prod.mk.injEq, List.mem_nil_iff, or_false]
+  constructor
+  · rintro (⟨h1, h1', h⟩ | ⟨h1, h⟩ | ⟨h1, h⟩ | h)
+    · exact ⟨j - 1, i - 1, h, Or.inr (Or.inr (Or.inr ⟨by omega, by omega⟩))⟩
+    · exact ⟨j - 1, i, h, Or.inr (Or.inr (Or.inl ⟨by omega, rfl⟩))⟩
+    · exact ⟨j, i - 1, h, Or.inr (Or.inl ⟨rfl, by omega⟩)⟩
+    · exact ⟨j, i, h, Or.inl ⟨rfl, rfl⟩⟩
+  · rintro ⟨j', i', h, ⟨rfl, rfl⟩ | ⟨rfl, rfl⟩ | ⟨rfl, rfl⟩ | ⟨rfl, rfl⟩⟩
+    · exact Or.inr (Or.inr (Or.inr h))
+    · exact Or.inr (Or.inr (Or.inl ⟨by omega, by simpa using h⟩))
+    · exact Or.inr (Or.inl ⟨by omega, by simpa using h⟩)
+    · exact Or.inl ⟨by omega, by omega, by simpa using h⟩
+
+/-! ## Grid clip masks -/
+
+/-- For every `intersects`, every polygon array (holes are `none`) and every hit list whose
+members are the cells with an intersecting polygon — in any order, with or without repeats —
+a cell is marked iff it lies within `buffer` rings of an intersecting cell.
+A non-positive buffer means no ring. -/
+theorem grid_mask_spec {Poly Geom : Type} (intersects : Poly → Geom → Bool)
+    (polys : List (Option Poly)) (g : Geom) (ny nx : Nat) (hits : List Nat)
+    (hhits : ∀ n, n ∈ hits ↔ ∃ p, polys[n]? = some (some p) ∧ intersects p g = true)
+    (buffer : Int) (j i : Nat) :
+    (gridClipMask ny nx hits buffer).get j i = true ↔
+      j < ny ∧ i < nx ∧ ∃ j' i', j' < ny ∧ i' < nx ∧
+        j' ≤ j + buffer.toNat ∧ j ≤ j' + buffer.toNat ∧
+        i' ≤ i + buffer.toNat ∧ i ≤ i' + buffer.toNat ∧
+        ∃ p, polys[j' * nx + i']? = some (some p) ∧ intersects p g = true := by
+  rw [get_gridClipMask]
+  simp only [hhits]
+
+/-- the mask of the cells whose linear index satisfies `P` -/
+def cellMask (ny nx : Nat) (P : Nat → Bool) : Mask := Mask.ofFn ny nx fun j i => P (j * nx + i)
+
+/-- the clip mask *is* `blur_mask` of the mask of intersecting cells, as arrays -/
+theorem grid_mask_eq_blur (ny nx : Nat) (P : Nat → Bool) (hits : List Nat)
+    (hhits : ∀ n, n < ny * nx → (n ∈ hits ↔ P n = true)) (buffer : Int) :
+    gridClipMask ny nx hits buffer = (cellMask ny nx P).blur buffer.toNat := by
+  have hbase : Mask.reshape ny nx (flatMask (ny * nx) hits) = cellMask ny nx P := by
+    unfold Mask.reshape cellMask
+    apply ofFn_congr
+    intro j i hj hi
+    rw [Bool.eq_iff_iff, getD_flatMask]
+    have := lin_lt hj hi
+    rw [← hhits _ this]
+    exact ⟨fun h => h.2, fun h => ⟨this, h⟩⟩
+  unfold gridClipMask
+  by_cases hb : buffer > 0
+  · simp only [hb, if_true, hbase]
+  · have h0 : buffer.toNat = 0 := by omega
+    simp only [hb, if_false, hbase, h0]
+    unfold Mask.blur cellMask
+    apply ofFn_congr
+    intro j i hj hi
+    rw [Bool.eq_iff_iff]
+    have := blur_zero (Mask.ofFn ny nx fun j i => P (j * nx + i)) j i
+    unfold Mask.blur at this
+    rw [get_ofFn, get_ofFn] at this
+    simp only [ofFn_ny, ofFn_nx, hj, hi, decide_true, Bool.true_and] at this
+    rw [get_ofFn]
+    simp only [hj, hi, decide_true, Bool.true_and]
+    rw [← Bool.eq_iff_iff]
+    exact this.symm
+
+/-- the order (and multiplicity) in which the spatial index returns the hits is irrelevant -/
+theorem grid_mask_order_irrelevant (ny nx : Nat) (hits hits' : List Nat)
+    (h : ∀ n, n ∈ hits ↔ n ∈ hits') (buffer : Int) :
+    gridClipMask ny nx hits buffer = gridClipMask ny nx hits' buffer := by
+  have hbase : Mask.reshape ny nx (flatMask (ny * nx) hits) =
+      Mask.reshape ny nx (flatMask (ny * nx) hits') := by
+    unfold Mask.reshape
+    apply ofFn_congr
+    intro j i _ _
+    rw [Bool.eq_iff_iff, getD_flatMask, getD_flatMask, h]
+  unfold gridClipMask
+  rw [hbase]
+
+/-- `ArakawaC.make_clip_mask`: the face mask is the grid clip mask; left / back / node masks mark
+exactly the edges and nodes of the marked faces. -/
+theorem arakawa_mask_spec (ny nx : Nat) (hits : List Nat) (buffer : Int) :
+    let c := arakawaClipMask ny nx hits buffer
+    c.face = gridClipMask ny nx hits buffer ∧
+    (∀ j i, c.left.get j i = true ↔ ∃ j' i', c.face.get j' i' = true ∧ (j, i) ∈ leftEdgesOf j' i') ∧
+    (∀ j i, c.back.get j i = true ↔ ∃ j' i', c.face.get j' i' = true ∧ (j, i) ∈ backEdgesOf j' i') ∧
+    (∀ j i, c.node.get j i = true ↔ ∃ j' i', c.face.get j' i' = true ∧ (j, i) ∈ nodesOf j' i') :=
+  ⟨rfl, cmask_left _, cmask_back _, cmask_node _⟩
+
+/-- Enlarging the geometry (more hits) or the buffer never unmarks a cell. -/
+theorem mask_monotone_grid (ny nx : Nat) (hits hits' : List Nat) (hsub : ∀ n, n ∈ hits → n ∈ hits')
+    (b b' : Int) (hb : b ≤ b') (j i : Nat)
+    (h : (gridClipMask ny nx hits b).get j i = true) :
+    (gridClipMask ny nx hits' b').get j i = true := by
+  rw [get_gridClipMask] at h ⊢
+  obtain ⟨hj, hi, j', i', hj', hi', h1, h2, h3, h4, hm⟩ := h
+  have : b.toNat ≤ b'.toNat := by omega
+  exact ⟨hj, hi, j', i', hj', hi', by omega, by omega, by omega, by omega, hsub _ hm⟩
+
+/-- … and so for the Arakawa C edge and node masks -/
+theorem mask_monotone_arakawa (ny nx : Nat) (hits hits' : List Nat)
+    (hsub : ∀ n, n ∈ hits → n ∈ hits') (b b' : Int) (hb : b ≤ b') (j i : Nat) :
+    ((arakawaClipMask ny nx hits b).left.get j i = true →
+      (arakawaClipMask ny nx hits' b').left.get j i = true) ∧
+    ((arakawaClipMask ny nx hits b).back.get j i = true →
+      (arakawaClipMask ny nx hits' b').back.get j i = true) ∧
+    ((arakawaClipMask ny nx hits b).node.get j i = true →
+      (arakawaClipMask ny nx hits' b').node.get j i = true) := by
+  have mono := mask_monotone_grid ny nx hits hits' hsub b b' hb
+  refine ⟨?_, ?_, ?_⟩
+  · intro h
+    obtain ⟨j', i', hf, hm⟩ := (cmask_left _ j i).mp h
+    exact (cmask_left _ j i).mpr ⟨j', i', mono _ _ hf, hm⟩
+  · intro h
+    obtain ⟨j', i', hf, hm⟩ := (cmask_back _ j i).mp h
+    exact (cmask_back _ j i).mpr ⟨j', i', mono _ _ hf, hm⟩
+  · intro h
+    obtain ⟨j', i', hf, hm⟩ := (cmask_node _ j i).mp h
+    exact (cmask_node _ j i).mpr ⟨j', i', mono _ _ hf, hm⟩
+
+/-! ## Rings on meshes: `buffer_faces` -/
+
+/-- `f` is in the result iff it is a face of the mesh and was given or shares a node with a
+given face. -/
+theorem buffer_faces_spec (m : FaceMesh) (F : List Nat) (f : Nat) :
+    f ∈ m.bufferFaces F ↔ f < m.nFaces ∧ (f ∈ F ∨ ∃ f', f' ∈ F ∧ m.Shares f' f) :=
+  mem_bufferFaces m F f
+
+/-- the result is in ascending face order without repeats -/
+theorem buffer_faces_sorted (m : FaceMesh) (F : List Nat) : (m.bufferFaces F).Pairwise (· < ·) :=
+  sorted_bufferFaces m F
+
+/-- `Within m S k f`: face `f` is reachable from a face satisfying `S` in at most `k`
+node-sharing steps (`k` rings). -/
+inductive Within (m : FaceMesh) (S : Nat → Prop) : Nat → Nat → Prop
+  | base {f : Nat} : S f → Within m S 0 f
+  | stay {k f : Nat} : Within m S k f → Within m S (k + 1) f
+  | step {k f' f : Nat} : Within m S k f' → f < m.nFaces → m.Shares f' f → Within m S (k + 1) f
+
+theorem Within.mono_set {m : FaceMesh} {S S' : Nat → Prop} (hS : ∀ f, S f → S' f) {k f : Nat}
+    (h : Within m S k f) : Within m S' k f := by
+  induction h with
+  | base hs => exact .base (hS _ hs)
+  | stay _ ih => exact .stay ih
+  | step _ hf hsh ih => exact .step ih hf hsh
+
+theorem Within.mono_rings {m : FaceMesh} {S : Nat → Prop} {k k' f : Nat} (hk : k ≤ k')
+    (h : Within m S k f) : Within m S k' f := by
+  induction hk with
+  | refl => exact h
+  | step _ ih => exact .stay ih
+
+/-- `b` iterations of `buffer_faces` are exactly `b` rings. -/
+theorem buffer_iter (m : FaceMesh) (F : List Nat) (hF : ∀ f ∈ F, f < m.nFaces) (b : Nat) (f : Nat) :
+    f ∈ m.bufferIter b F ↔ Within m (· ∈ F) b f := by
+  induction b generalizing f with
+  | zero =>
+    constructor
+    · intro h; exact .base h
+    · intro h; cases h with | base hs => exact hs
+  | succ b ih =>
+    rw [bufferIter_succ, mem_bufferFaces]
+    constructor
+    · rintro ⟨hf, h | ⟨f', hf', hsh⟩⟩
+      · exact .stay ((ih f).mp h)
+      · exact .step ((ih f').mp hf') hf hsh
+    · intro h
+      cases h with
+      | stay h' =>
+        have hm := (ih f).mpr h'
+        exact ⟨inRange_bufferIter m b F hF f hm, Or.inl hm⟩
+      | step h' hf hsh => exact ⟨hf, Or.inr ⟨_, (ih _).mpr h', hsh⟩⟩
+
+/-- For every `intersects` and every order of the hits: the faces a mesh clip keeps are
+exactly those within `buffer` node-sharing rings of an intersecting face. -/
+theorem kept_faces_spec {Poly Geom : Type} (intersects : Poly → Geom → Bool)
+    (polys : List (Option Poly)) (g : Geom) (m : FaceMesh) (hlen : polys.length = m.nFaces)
+    (hits : List Nat)
+    (hhits : ∀ n, n ∈ hits ↔ ∃ p, polys[n]? = some (some p) ∧ intersects p g = true)
+    (buffer : Int) (f : Nat) :
+    f ∈ keptFaces m hits buffer ↔
+      Within m (fun n => ∃ p, polys[n]? = some (some p) ∧ intersects p g = true) buffer.toNat f := by
+  unfold keptFaces
+  have hr : ∀ f ∈ sortU hits, f < m.nFaces := by
+    intro f hf
+    rw [mem_sortU, hhits] at hf
+    obtain ⟨p, hp, _⟩ := hf
+    have : f < polys.length := by
+      rcases Nat.lt_or_ge f polys.length with h | h
+      · exact h
+      · rw [List.getElem?_eq_none h] at hp; simp at hp
+    omega
+  rw [buffer_iter m _ hr]
+  constructor
+  · exact Within.mono_set (fun n hn => (hhits n).mp ((mem_sortU _ _).mp hn))
+  · exact Within.mono_set (fun n hn => (mem_sortU _ _).mpr ((hhits n).mpr hn))
+
+/-- the kept faces come out in ascending order without repeats, whatever the hit order -/
+theorem kept_faces_sorted (m : FaceMesh) (hits : List Nat) (buffer : Int) :
+    (keptFaces m hits buffer).Pairwise (· < ·) :=
+  sorted_bufferIter m _ _ (sorted_sortU hits)
+
+/-! ## Mesh masks: kept edges and nodes, renumbering -/
+
+/-- entry `e` of a new-index table is kept (not masked) -/
+def IsKept (t : List (Option Nat)) (e : Nat) : Prop := ∃ v, t[e]? = some (some v)
+
+/-- the nodes / edges of the kept faces, ascending -/
+def keptNodes (m : FaceMesh) (K : List Nat) : List Nat := sortU (K.flatMap m.faceNodes)
+def keptEdges (m : FaceMesh) (K : List Nat) : List Nat := sortU (K.flatMap m.faceEdgesOf)
+
+theorem mem_keptNodes (m : FaceMesh) (K : List Nat) (n : Nat) :
+    n ∈ keptNodes m K ↔ ∃ f, f ∈ K ∧ n ∈ m.faceNodes f := by
+  simp [keptNodes, mem_sortU, List.mem_flatMap]
+
+theorem mem_keptEdges (m : FaceMesh) (K : List Nat) (e : Nat) :
+    e ∈ keptEdges m K ↔ ∃ f, f ∈ K ∧ e ∈ m.faceEdgesOf f := by
+  simp [keptEdges, mem_sortU, List.mem_flatMap]
+
+/-- **Renumbering.** For every order in which the hits arrive (and every buffer): each table has
+one entry per old element; the new index of a kept element is the number of kept elements with a
+smaller old index; a dropped element is masked.  Faces, nodes, and — when the mesh has an edge
+dimension — edges; without an edge dimension there is no edge table. -/
+theorem renumber_spec (m : FaceMesh) (hits : List Nat) (buffer : Int) :
+    let K := keptFaces m hits buffer
+    let M := ugridClipMask m hits buffer
+    (M.newFace.length = m.nFaces ∧
+      ∀ f, f < m.nFaces → M.newFace[f]? = some (if f ∈ K then some (countLt K f) else none)) ∧
+    (M.newNode.length = m.nNodes ∧
+      ∀ n, n < m.nNodes →
+        M.newNode[n]? = some (if n ∈ keptNodes m K then some (countLt (keptNodes m K) n) else none)) ∧
+    (match m.nEdges with
+      | none => M.newEdge = none
+      | some ne => ∃ t, M.newEdge = some t ∧ t.length = ne ∧
+          ∀ e, e < ne →
+            t[e]? = some (if e ∈ keptEdges m K then some (countLt (keptEdges m K) e) else none)) := by
+  intro K M
+  have hK : K.Pairwise (· < ·) := kept_faces_sorted m hits buffer
+  refine ⟨⟨length_newElementIndexes _ _, fun f hf => getElem?_newElementIndexes _ _ hK f hf⟩,
+    ⟨length_newElementIndexes _ _,
+      fun n hn => getElem?_newElementIndexes _ _ (sorted_sortU _) n hn⟩, ?_⟩
+  cases hne : m.nEdges with
+  | none => simp [M, ugridClipMask, maskFromFaceIndexes, hne]
+  | some ne =>
+    refine ⟨newElementIndexes ne (keptEdges m K), ?_, length_newElementIndexes _ _,
+      fun e he => getElem?_newElementIndexes _ _ (sorted_sortU _) e he⟩
+    simp [M, K, ugridClipMask, maskFromFaceIndexes, hne, keptEdges]
+
+/-- **Kept elements.** A face is kept iff it is one of the kept faces; a node (edge) is kept iff
+it belongs to at least one kept face — nothing of a dropped face survives unless a kept face
+shares it. -/
+theorem mesh_mask_spec (m : FaceMesh) (hits : List Nat) (hr : ∀ f ∈ hits, f < m.nFaces)
+    (buffer : Int) :
+    let K := keptFaces m hits buffer
+    let M := ugridClipMask m hits buffer
+    (∀ f, IsKept M.newFace f ↔ f ∈ K) ∧
+    (∀ n, IsKept M.newNode n ↔ n < m.nNodes ∧ ∃ f, f ∈ K ∧ n ∈ m.faceNodes f) ∧
+    (∀ t, M.newEdge = some t →
+      ∀ e, IsKept t e ↔ (∃ ne, m.nEdges = some ne ∧ e < ne) ∧ ∃ f, f ∈ K ∧ e ∈ m.faceEdgesOf f) ∧
+    (M.newEdge = none ↔ m.nEdges = none) := by
+  intro K M
+  obtain ⟨⟨hfl, hf⟩, ⟨hnl, hn⟩, he⟩ := renumber_spec m hits buffer
+  have hKr : ∀ f ∈ K, f < m.nFaces :=
+    inRange_bufferIter m _ _ (fun f hf => hr f ((mem_sortU _ _).mp hf))
+  have key : ∀ (t : List (Option Nat)) (size : Nat) (S : List Nat), t.length = size →
+      (∀ e, e < size → t[e]? = some (if e ∈ S then some (countLt S e) else none)) →
+      ∀ e, IsKept t e ↔ e < size ∧ e ∈ S := by
+    intro t size S hl ht e
+    unfold IsKept
+    rcases Nat.lt_or_ge e size with h | h
+    · rw [ht e h]
+      by_cases hm : e ∈ S
+      · simp [hm, h]
+      · simp [hm]
+    · rw [List.getElem?_eq_none (by omega)]
+      simp; omega
+  refine ⟨?_, ?_, ?_, ?_⟩
+  · intro f
+    rw [key _ _ K hfl hf f]
+    exact ⟨fun h => h.2, fun h => ⟨hKr f h, h⟩⟩
+  · intro n
+    rw [key _ _ _ hnl hn n, mem_keptNodes]
+  · intro t ht e
+    cases hne : m.nEdges with
+    | none => simp [hne] at he; rw [he] at ht; simp at ht
+    | some ne =>
+      simp only [hne] at he
+      obtain ⟨t', ht', hl, hspec⟩ := he
+      rw [ht] at ht'
+      have : t = t' := by simpa using ht'
+      subst this
+      rw [key _ _ _ hl hspec e, mem_keptEdges]
+      simp
+  · cases hne : m.nEdges with
+    | none => simp [hne] at he; simp [he]
+    | some ne =>
+      simp only [hne] at he
+      obtain ⟨t', ht', _, _⟩ := he
+      simp [ht']
+
+/-- Renumbering is order preserving and contiguous: kept elements receive `0 … k-1`
+(each exactly once) in increasing old-index order.  Stated for any ascending kept list inside
+the table, which is what `renumber_spec` produces for faces, nodes and edges. -/
+theorem renumber_contiguous (size : Nat) (S : List Nat) (hS : S.Pairwise (· < ·))
+    (hr : ∀ e ∈ S, e < size) :
+    let t := newElementIndexes size S
+    (∀ e e', e ∈ S → e' ∈ S → e < e' →
+        ∃ v v', t[e]? = some (some v) ∧ t[e']? = some (some v') ∧ v < v') ∧
+    (∀ e v, t[e]? = some (some v) → v < S.length) ∧
+    (∀ v, v < S.length → ∃ e, e ∈ S ∧ t[e]? = some (some v)) := by
+  intro t
+  have get := fun e he => getElem?_newElementIndexes size S hS e he
+  refine ⟨?_, ?_, ?_⟩
+  · intro e e' he he' hlt
+    refine ⟨countLt S e, countLt S e', ?_, ?_, countLt_strict S he hlt⟩
+    · rw [get e (hr e he)]; simp [he]
+    · rw [get e' (hr e' he')]; simp [he']
+  · intro e v hv
+    rcases Nat.lt_or_ge e size with h | h
+    · rw [get e h] at hv
+      by_cases hm : e ∈ S
+      · simp [hm] at hv; subst hv; exact countLt_lt_length S hm
+      · simp [hm] at hv
+    · have : t[e]? = none := List.getElem?_eq_none (by rw [length_newElementIndexes]; omega)
+      rw [this] at hv; simp at hv
+  · intro v hv
+    have hm : S[v] ∈ S := List.getElem_mem hv
+    refine ⟨S[v], hm, ?_⟩
+    rw [get _ (hr _ hm)]
+    simp [hm, countLt_getElem S hS v hv]
+
+/-- the whole mask is a function of the *set* of hits: any two orders give the same mask -/
+theorem renumber_order_irrelevant (m : FaceMesh) (hits hits' : List Nat)
+    (h : ∀ f, f ∈ hits ↔ f ∈ hits') (buffer : Int) :
+    ugridClipMask m hits buffer = ugridClipMask m hits' buffer := by
+  unfold ugridClipMask keptFaces
+  rw [sortU_congr h]
+
+/-- Enlarging the geometry (more hits) or the buffer never drops a face, a node or an edge. -/
+theorem mask_monotone_mesh (m : FaceMesh) (hits hits' : List Nat)
+    (hr : ∀ f ∈ hits', f < m.nFaces) (hsub : ∀ f, f ∈ hits → f ∈ hits')
+    (b b' : Int) (hb : b ≤ b') :
+    let M := ugridClipMask m hits b
+    let M' := ugridClipMask m hits' b'
+    (∀ f, IsKept M.newFace f → IsKept M'.newFace f) ∧
+    (∀ n, IsKept M.newNode n → IsKept M'.newNode n) ∧
+    (∀ t t', M.newEdge = some t → M'.newEdge = some t' → ∀ e, IsKept t e → IsKept t' e) := by
+  intro M M'
+  have hr0 : ∀ f ∈ hits, f < m.nFaces := fun f hf => hr f (hsub f hf)
+  have hK : ∀ f, f ∈ keptFaces m hits b → f ∈ keptFaces m hits' b' := by
+    intro f hf
+    unfold keptFaces at hf ⊢
+    rw [buffer_iter m _ (fun f hf => hr0 f ((mem_sortU _ _).mp hf))] at hf
+    rw [buffer_iter m _ (fun f hf => hr f ((mem_sortU _ _).mp hf))]
+    apply Within.mono_rings (by omega : b.toNat ≤ b'.toNat)
+    exact Within.mono_set (fun n hn => (mem_sortU _ _).mpr (hsub n ((mem_sortU _ _).mp hn))) hf
+  obtain ⟨f1, n1, e1, _⟩ := mesh_mask_spec m hits hr0 b
+  obtain ⟨f2, n2, e2, _⟩ := mesh_mask_spec m hits' hr b'
+  refine ⟨?_, ?_, ?_⟩
+  · intro f hf; exact (f2 f).mpr (hK f ((f1 f).mp hf))
+  · intro n hn
+    obtain ⟨hlt, f, hf, hm⟩ := (n1 n).mp hn
+    exact (n2 n).mpr ⟨hlt, f, hK f hf, hm⟩
+  · intro t t' ht ht' e he
+    obtain ⟨hlt, f, hf, hm⟩ := (e1 t ht e).mp he
+    exact (e2 t' ht' e).mpr ⟨hlt, f, hK f hf, hm⟩
+
+/-! ## The pinned tree's numbering (finding F1) does not satisfy `renumber_spec` -/
+
+/-- Two triangles sharing an edge, hits arriving as `[1, 0]`: numbering faces in hit order gives
+`new_face_index = [1, 0]`, which is not order preserving; the demanded mask gives `[0, 1]`. -/
+theorem hit_order_numbering_violates :
+    let m : FaceMesh := { nNodes := 4, faces := [[0, 1, 2], [1, 3, 2]], nEdges := none, faceEdges := [] }
+    (ugridClipMaskCurrent m [1, 0] 0).newFace = [some 1, some 0] ∧
+    rankOK (ugridClipMaskCurrent m [1, 0] 0).newFace = false ∧
+    (ugridClipMask m [1, 0] 0).newFace = [some 0, some 1] ∧
+    rankOK (ugridClipMask m [1, 0] 0).newFace = true := by
+  decide
+
+/-! ## Non-vacuity: concrete inputs meet the hypotheses -/
+
+/-- docstring example of `blur_mask` -/
+example :
+    (Mask.reshape 4 5 [true, false, false, false, false, false, false, false, false, false,
+        false, false, false, true, false, false, false, false, false, true]).blur 1
+      = Mask.reshape 4 5 [true, true, false, false, false, true, true, true, true, true,
+        false, false, true, true, true, false, false, true, true, true] := by decide
+
+/-- docstring example of `smear_mask` -/
+example :
+    (Mask.reshape 3 5 [false, false, true, false, false, false, true, false, true, false,
+        true, false, false, false, true]).smear true true
+      = Mask.reshape 4 6 [false, false, true, true, false, false, false, true, true, true, true, false,
+        true, true, true, true, true, true, true, true, false, false, true, true] := by decide
+
+/-- `grid_mask_spec`'s hypothesis is satisfiable: a 2×3 grid with a hole, hits in reverse order -/
+example : ∀ n, n ∈ [4, 1] ↔
+    ∃ p, ([some 0, some 1, none, some 3, some 4, some 5] : List (Option Nat))[n]? = some (some p) ∧
+      (fun (p : Nat) (_ : Unit) => p == 1 || p == 4) p () = true := by
+  intro n
+  constructor
+  · intro h
+    simp at h
+    rcases h with rfl | rfl
+    · exact ⟨4, by decide, by decide⟩
+    · exact ⟨1, by decide, by decide⟩
+  · rintro ⟨p, hp, hq⟩
+    have hn : n < 6 := by
+      rcases Nat.lt_or_ge n 6 with h | h
+      · exact h
+      · rw [List.getElem?_eq_none (by simpa using h)] at hp; simp at hp
+    have : n = 0 ∨ n = 1 ∨ n = 2 ∨ n = 3 ∨ n = 4 ∨ n = 5 := by omega
+    rcases this with rfl | rfl | rfl | rfl | rfl | rfl <;> simp_all
+
+example : gridClipMask 2 3 [4, 1] 1 = Mask.reshape 2 3 [true, true, true, true, true, true] := by decide
+example : gridClipMask 2 3 [4] 0 = gridClipMask 2 3 [4, 4] (-1) := by decide
+
+/-- a mesh with an edge dimension: three triangles in a strip, hits `[2, 0]`, no buffer -/
+def exampleMesh : FaceMesh :=
+  { nNodes := 5, faces := [[0, 1, 2], [1, 3, 2], [2, 3, 4]], nEdges := some 7,
+    faceEdges := [[0, 1, 2], [3, 4, 1], [4, 5, 6]] }
+
+example : keptFaces exampleMesh [2, 0] 0 = [0, 2] := by decide
+example : ugridClipMask exampleMesh [2, 0] 0 =
+    { newFace := [some 0, none, some 1],
+      newEdge := some [some 0, some 1, some 2, none, some 3, some 4, some 5],
+      newNode := [some 0, some 1, some 2, some 3, some 4] } := by decide
+example : keptFaces exampleMesh [0] 1 = [0, 1, 2] := by decide
+example : ∀ f ∈ [2, 0], f < exampleMesh.nFaces := by decide
+
 end Ems.C07
